@@ -182,6 +182,16 @@ func (w *World) opaqueMethodImpl(ov *OpaqueVal, name string) opaqueMethodFn {
 	if m := cipherMethod(ov, name); m != nil {
 		return m
 	}
+	if ov.name == "oauth2.TokenSource" && name == "Token" {
+		// what the token endpoint answers is the harness's closure (see verifOAuth2TokenFunc)
+		return func(e *Exec, ov *OpaqueVal, args []Value) Value {
+			f, ok := e.hidden["oauth2tokenfunc"].(*FuncVal)
+			if !ok {
+				e.unsupported("oauth2 token request without verifOAuth2TokenFunc")
+			}
+			return e.callValue(f, nil, nil)
+		}
+	}
 	if ov.name == "ctx" {
 		switch name {
 		case "Done":
